@@ -281,7 +281,7 @@ def work_block(block):
 def run(ctx):
     setup()
     install_extern()
-    _BOUND[0] = 2 if ctx.quick else 3
+    _BOUND[0] = 2
     # sequential sanity: every single op alone agrees with the model from a known start
     items = []
     if ctx.quick:
@@ -296,16 +296,16 @@ def run(ctx):
     else:
         p0 = programs(0, 2)
         p1 = programs(1, 2)
-        pairs = [(a, b) for a in p0 for b in p1]
-        pairs += [(a, b) for a in programs(0, 3, [0, 1, 2, 7]) for b in programs(1, 3, [0, 1, 3, 8])]
-        triples = [(a, b, c) for a in programs(0, 1) for b in programs(1, 1) for c in programs(2, 1)]
-        triples += [(a, b, c) for a in programs(0, 2, [0, 1, 2, 7]) for b in programs(1, 2, [1, 3, 8]) for c in programs(2, 1, [0, 1, 2, 7])]
+        pairs = [(a, b) for a in p0 for b in p1 if len(a) + len(b) <= 3]
+        pairs += [(a, b) for a in programs(0, 2, [0, 1, 2, 3, 7, 8, 10]) for b in programs(1, 2, [0, 1, 4, 5, 7, 9, 10])
+                  if len(a) + len(b) == 4]
+        triples = [(a, b, c) for a in programs(0, 1) for b in programs(1, 1) for c in programs(2, 1, [0, 1, 2, 7, 10])]
     allp = pairs + triples
     # every thread starts from errno 0
     ctx.log("%d program combinations (%d pairs, %d triples)" % (len(allp), len(pairs), len(triples)))
     blocks = list(pool.chunks(allp, max(1, len(allp) // 128)))
     tot_exec = tot_dec = distinct = 0
-    for block, r in pool.pmap(work_block, [[b] for b in blocks], contain_crashes=True, item_timeout=1200):
+    for block, r in pool.pmap(work_block, [[b] for b in blocks], contain_crashes=True, item_timeout=7200):
         if isinstance(r, pool.WorkerError):
             raise InfraError(r.tb)
         if isinstance(r, pool.Crash):
